@@ -400,6 +400,67 @@ func growthKeySets(r *rand.Rand) [][][]byte {
 	return out
 }
 
+// longPrefixKeySets: see runMemidx.
+func longPrefixKeySets(r *rand.Rand) [][][]byte {
+	var out [][][]byte
+	for _, plen := range []int{17, 24, 40} {
+		for _, deep := range []bool{false, true} {
+			for _, useCF := range []bool{false, true} {
+				run := make([]byte, plen)
+				for i := range run {
+					run[i] = byte('a' + r.Intn(3))
+				}
+				head := []byte{}
+				if deep {
+					head = []byte{'q'}
+				}
+				mk := func(uk []byte, ver uint64) []byte {
+					if useCF {
+						return kv.InternalKey(kv.CFDefault, uk, ver)
+					}
+					return kv.KeyWithTs(uk, ver)
+				}
+				// user key = head ++ run ++ [x, y]: x is the branching byte after the long run
+				uk := func(x, y byte) []byte {
+					return append(append(append([]byte(nil), head...), run...), x, y)
+				}
+				var keys [][]byte
+				if deep {
+					// keeps the root an inner node with a short prefix
+					other := append([]byte{'r'}, bytes.Repeat([]byte{'z'}, plen+2)...)
+					keys = append(keys, mk(other, 3))
+				}
+				// two keys create the node with the long prefix, the third clones it
+				keys = append(keys, mk(uk('a', 'a'), 3), mk(uk('b', 'a'), 3), mk(uk('c', 'a'), 3))
+				// keys below the cloned node (lookups go through it), other versions
+				keys = append(keys, mk(uk('a', 'b'), 3), mk(uk('b', 'a'), 9), mk(uk('c', 'c'), 1))
+				// a key that leaves the long run in the middle: splitPrefix, both halves may be long
+				mid := uk('a', 'a')
+				mid[len(head)+plen/2] = 'X'
+				keys = append(keys, mk(mid, 3))
+				// more siblings: 5th child (Node4 -> Node16) ... 18 children (Node16 -> Node48)
+				n := 3 + r.Intn(3)
+				if plen == 24 {
+					n = 16
+				}
+				for i := 0; i < n; i++ {
+					keys = append(keys, mk(uk(byte('d'+i), byte('a'+r.Intn(2))), 3))
+				}
+				// and again below the grown node
+				keys = append(keys, mk(uk('b', 'b'), 3), mk(uk('d', 'z'), 5))
+				out = append(out, keys)
+				// the same set with the siblings first and the long-run pair last
+				rev := make([][]byte, len(keys))
+				for i, k := range keys {
+					rev[len(keys)-1-i] = k
+				}
+				out = append(out, rev)
+			}
+		}
+	}
+	return out
+}
+
 func permutations(n int) [][]int {
 	if n == 0 {
 		return [][]int{{}}
@@ -417,7 +478,7 @@ func permutations(n int) [][]int {
 func runMemidx(c *corr.Ctx) error {
 	c.Meta("run_module", "RunMemIndex")
 	c.Meta("exhaustive", false)
-	c.Meta("rule", "the same insertion sequence into utils.NewSkiplist and utils.NewART (value = insertion index): random key multisets over user-key alphabet {a,b,00,ff} (lengths 0..4, optional shared prefix, with/without CF marker, 9 versions incl. 0 and 2^64-1, a few overwrites), fixed-length (radix-safe) and mixed-length shapes, wide fan-out sets (>48 distinct next bytes: every ART node width), node-growth sets (children crossing 5/17/49 with a child keyed 00/01/fe/ff inserted before, at and after each growth, at the root and one level down; 60 versions of one key), all insertion orders of 2..4-key sets (5 in thorough); per engine: full forward and reverse iteration, Search and Seek+3*Next in both directions on every key and its neighbours (version +-1, max, 0, key++00, key++ff, key minus last byte). Concurrent inserts (8 goroutines, distinct keys) are a stress test only, compared with the sequential model. non-trivial = >= 2 user keys and more targets than keys")
+	c.Meta("rule", "the same insertion sequence into utils.NewSkiplist and utils.NewART (value = insertion index): random key multisets over user-key alphabet {a,b,00,ff} (lengths 0..4, optional shared prefix, with/without CF marker, 9 versions incl. 0 and 2^64-1, a few overwrites), fixed-length (radix-safe) and mixed-length shapes, wide fan-out sets (>48 distinct next bytes: every ART node width), long-prefix sets (keys sharing a run of 17/24/40 bytes, then 3rd/5th/17th sibling at the end of the run, a key splitting the run, keys below the cloned node; root and one level down, with and without CF marker), node-growth sets (children crossing 5/17/49 with a child keyed 00/01/fe/ff inserted before, at and after each growth, at the root and one level down; 60 versions of one key), all insertion orders of 2..4-key sets (5 in thorough); per engine: full forward and reverse iteration, Search and Seek+3*Next in both directions on every key and its neighbours (version +-1, max, 0, key++00, key++ff, key minus last byte). Concurrent inserts (8 goroutines, distinct keys) are a stress test only, compared with the sequential model. non-trivial = >= 2 user keys and more targets than keys")
 	if c.Replay != "" {
 		cases, err := c.ReplayCases()
 		if err != nil {
@@ -511,6 +572,16 @@ func runMemidx(c *corr.Ctx) error {
 			return err
 		}
 		c.Count("node_growth_cases")
+	}
+	// long compressed paths: keys sharing a run of 17 / 24 / 40 bytes (longer than the 16
+	// inline prefix bytes of an ART node), then siblings inserted at the end of that run so
+	// the node is cloned (3rd child) and grown (5th, 17th child), a key that splits the long
+	// run in the middle, and further keys below the cloned node; equal lengths throughout
+	for _, keys := range longPrefixKeySets(c.Rng) {
+		if err := emit(keys, 30, false, true); err != nil {
+			return err
+		}
+		c.Count("long_prefix_cases")
 	}
 	// concurrent inserts: stress test only
 	for i := 0; i < c.Scale(2, 20); i++ {
